@@ -3,6 +3,7 @@
   The handler stack discipline of the runtime model.
 -/
 import PigeonVerif.Proofs.StoreLemmas
+import PigeonVerif.Proofs.ThrowLaws
 
 namespace PV
 namespace RT
@@ -57,6 +58,57 @@ theorem C14_throw_innermost_first (E : Env) (rec : Expr → PState → Outcome) 
       (parseExprWrap E rec r s).bind fun v ok s1 =>
         if ok then .done v true s1 else parseThrow E rec label frs s1 := by
   simp only [parseThrow, hl]
+
+/-! ### the declarative form: the labelled-failure semantics of the independent specification, and the runtime refines it
+
+  (`Proofs/ThrowLaws.lean`; in `Spec.eval` the handlers in force are an argument of the evaluation, innermost first.) -/
+
+/-- **C14 (handlers are in force only while their guarded expression is evaluated).** `e //{L…} r` is `e` evaluated with one
+    more handler frame; the frame is an argument of that evaluation and of nothing else. -/
+theorem C14_recovery_is_guarded_eval (E : Env) (f : Nat) (c : Spec.Ctx) (id : Nat) (e1 r : Expr) (labels : List String)
+    (env : List (String × Val)) (pt : Savepoint) (w : Spec.World) :
+    Spec.eval E (f + 1) c (.recovery id e1 r labels) env pt w =
+      Spec.eval E f { c with handlers := (labels.map (fun l => (l, r))).reverse :: c.handlers } e1 env pt w :=
+  Spec.recovery_is_guarded_eval E f c id e1 r labels env pt w
+
+/-- **C14 (a throw outside every operator listing its label fails like an ordinary mismatch)**: nothing consumed, scope and
+    world untouched - so normal backtracking resumes. -/
+theorem C14_unhandled_throw_fails (E : Env) (f : Nat) (c : Spec.Ctx) (id : Nat) (label : String)
+    (env : List (String × Val)) (pt : Savepoint) (w : Spec.World) (h : ∀ fr ∈ c.handlers, lookup label fr = none) :
+    Spec.eval E (f + 1) c (.throw id label) env pt w = .fail env w := by
+  rw [Spec.throw_is_handler_search]
+  exact Spec.throw_unhandled (Spec.eval E f) c label c.handlers env pt w h
+
+/-- **C14 (the innermost operator listing the label recovers, at the throw position, with its value in place of the
+    throw).** -/
+theorem C14_innermost_handler_recovers (E : Env) (f : Nat) (c : Spec.Ctx) (id : Nat) (label : String)
+    (fr : List (String × Expr)) (hs : List (List (String × Expr))) (r : Expr)
+    (env : List (String × Val)) (pt : Savepoint) (w : Spec.World) (v : Val) (pt' : Savepoint)
+    (env' : List (String × Val)) (w' : Spec.World)
+    (hc : c.handlers = fr :: hs) (hl : lookup label fr = some r)
+    (hr : Spec.eval E f c r env pt w = .ok v pt' env' w') :
+    Spec.eval E (f + 1) c (.throw id label) env pt w = .ok v pt' env' w' := by
+  rw [Spec.throw_is_handler_search, hc]
+  exact Spec.throw_recovered (Spec.eval E f) c label fr hs r env pt w v pt' env' w' hl hr
+
+/-- **C14 (if it fails, the next enclosing operator listing the label is tried, at the same position).** -/
+theorem C14_failed_recovery_tries_the_next_handler (E : Env) (f : Nat) (c : Spec.Ctx) (id : Nat) (label : String)
+    (fr : List (String × Expr)) (hs : List (List (String × Expr))) (r : Expr)
+    (env : List (String × Val)) (pt : Savepoint) (w : Spec.World) (env' : List (String × Val)) (w' : Spec.World)
+    (hc : c.handlers = fr :: hs) (hl : lookup label fr = some r)
+    (hr : Spec.eval E f c r env pt w = .fail env' w') :
+    Spec.eval E (f + 1) c (.throw id label) env pt w = Spec.evalThrow (Spec.eval E f) c label hs env' pt w' := by
+  rw [Spec.throw_is_handler_search, hc]
+  exact Spec.throw_next_handler (Spec.eval E f) c label fr hs r env pt w env' w' hl hr
+
+/-- **C14 (the runtime implements this semantics).** Plain configuration (no Memoize, no budget, no left-recursive rules -
+    C14 itself does not mention them; with a memo table the handlers in force are NOT part of the key: the observation at
+    the end of DESIGN 0.5 and finding D31): for every grammar, code environment, input, depth, expression and reachable
+    state, the runtime's outcome - match or not, value, end position, label scope, stores, errors, every code-block
+    invocation - is the outcome of the labelled-failure semantics, the runtime's handler stack being the handlers in force. -/
+theorem C14_runtime_implements_labelled_failures (E : Env) (hp : Plain E) (f : Nat) (e : Expr) (s : PState)
+    (hg : Good E s) : abs (parseExpr E f e s) = Spec.eval E f (ctxOf s) e (envOf s) s.pt (absW s) :=
+  throw_recover_is_spec E hp f e s hg
 
 end RT
 end PV
